@@ -122,6 +122,7 @@ var stockFiles = map[string]fileSpec{
 	"/u/guest2.gb":   {Parts: []string{"NC_001422_part.gb", "NC_001422_part.gb"}},
 	"/u/query.fasta": {Text: ">q1\nGAGTTTTATC\n>q2\nTTTTTT\n"},
 	"/u/huge.fasta":  {Parts: []string{"NC_001422.fasta"}, Repeat: 2100},
+	"/u/mb.fasta":    {Parts: []string{"NC_001422.fasta"}, Repeat: 240},
 	"/u/feat.tbl": {Text: "     misc_feature    10..50\n                     /note=\"annotated by the simulator\"\n" +
 		"     gene            complement(60..120)\n                     /gene=\"sim\"\n"},
 	"/u/feat2.tbl": {Text: "     misc_feature    1..9\n                     /note=\"other table\"\n"},
@@ -632,6 +633,21 @@ func genHistory(r *core.RNG, tier string) *cliScenario {
 	add := func(rs *runStep) {
 		addFiles(sc, rs)
 		sc.Steps = append(sc.Steps, cliStep{Run: rs})
+	}
+	if r.Chance(1, 250) || (tier == "thorough" && r.Chance(1, 600)) {
+		// an input above a MiB (thorough: above 10 MB) that changes by one residue near its end, same length
+		in := "/u/mb.fasta"
+		if tier == "thorough" && r.Chance(1, 3) {
+			in = "/u/huge.fasta"
+		}
+		big := invocation{Cmd: pickS(r, []string{"reverse", "complement", "clear", "sort"}), Input: in, Piped: r.Chance(1, 2)}
+		sc.Env = cliEnv{Cache: "ok", Tmp: "ok"}
+		sc.Steps = nil
+		st := big.step(r)
+		st.Chunks = nil
+		addFiles(sc, st)
+		sc.Steps = append(sc.Steps, cliStep{Run: st}, cliStep{Edit: &editStep{File: in, Edit: editSpec{Op: "mutate-tail", At: r.Intn(300)}}}, cliStep{Run: st})
+		return sc
 	}
 	if r.Chance(9, 20) {
 		// pair shape: a run that succeeds, then the same run with exactly one argument changed
